@@ -140,3 +140,9 @@ Print Assumptions C03_print_config_value_empty_refuted.
 Theorem C03_json_int_digit_limit_refuted : finding_status 23 wit_finding_23.
 Proof. exact finding_23_status. Qed.
 Print Assumptions C03_json_int_digit_limit_refuted.
+Theorem C03_registered_type_arithmetic_error_refuted : finding_status 24 wit_finding_24.
+Proof. exact finding_24_status. Qed.
+Print Assumptions C03_registered_type_arithmetic_error_refuted.
+Theorem C03_yaml_timestamp_tag_refuted : finding_status 25 wit_finding_25.
+Proof. exact finding_25_status. Qed.
+Print Assumptions C03_yaml_timestamp_tag_refuted.
